@@ -64,6 +64,11 @@ def mg_atomizer(func):
                     return (('eq', a, b), isinstance(op, ast.Eq))
                 if isinstance(op, (ast.In, ast.NotIn)):
                     return (('in', l, r), isinstance(op, ast.In))
+                if isinstance(op, (ast.Is, ast.IsNot)):
+                    # object identity of two values (ints, strings) is not
+                    # the documented equality: an atom of its own
+                    a, b = sorted([l, r])
+                    return (('is', a, b), isinstance(op, ast.Is))
         # other tests between two parameters (regular expression search,
         # prefix tests, ...) are atoms of their own: the decision then
         # depends on something the documented rule does not mention
